@@ -170,6 +170,12 @@ func queryPool(r *zsim.Rng, extended bool, n int) []string {
 			if len(q) > 1 {
 				pool = append(pool, q[:len(q)-1], q[1:])
 			}
+			if extended && r.Bool() {
+				// the same plain term with a term next to it that makes the pattern one whose results are not to
+				// be cached or looked up under the plain term's key (negation, anchor, alternative)
+				x := string(lineAlphabet[r.Intn(len(lineAlphabet))])
+				pool = append(pool, q+pick(r, " !", " ^", " | ", " '")+x)
+			}
 		}
 	}
 	return pool
